@@ -16,6 +16,24 @@ def main() -> int:
             return 1
     if len(boson.fock(4, 3)) != boson.n_fock(4, 3):
         return 1
+    # the polynomial-expansion amplitudes against the permanent-based ones, and their normalisation for many photons
+    from scipy.stats import unitary_group
+    for m, occ in ((3, [2, 1, 0]), (2, [3, 3]), (4, [1, 2, 0, 2]), (3, [0, 5, 1])):
+        u = unitary_group.rvs(m, random_state=7) if m > 1 else np.eye(1)
+        table = boson.amplitudes_poly(u, occ)
+        if set(table) != set(boson.fock(m, sum(occ))):
+            print("selfcheck: polynomial reference misses output patterns")
+            return 1
+        for out, a in table.items():
+            if abs(a - boson.amplitude(u, occ, list(out))) > 1e-10:
+                print("selfcheck: polynomial and permanent amplitudes disagree", occ, out)
+                return 1
+    for occ in ([13, 13], [21, 0], [9, 9, 9]):
+        u = unitary_group.rvs(len(occ), random_state=3)
+        tot = sum(abs(a) ** 2 for a in boson.amplitudes_poly(u, occ).values())
+        if abs(tot - 1) > 1e-8:
+            print("selfcheck: polynomial reference not normalised for", occ, tot)
+            return 1
     print("lwverif selfcheck ok")
     return 0
 
